@@ -136,9 +136,16 @@ package risc
 //@ spec func wfCtxRAT(ctx *Context) bool = ctx != nil && ctx.committedRAT != nil && ctx.transactionRAT != nil && comp.wfRAT(ctx.committedRAT) && comp.wfRAT(ctx.transactionRAT) \
 //@    && ctx.committedRAT.idx != ctx.transactionRAT.idx && ctx.committedRAT.wrapped != ctx.transactionRAT.wrapped && ctx.committedSequenceID != nil
 
+// sortedRAT: per register the uncommitted writes are in tag order (ring order =
+// program order). It holds for an empty table and is preserved by every
+// operation; under it "most recent entry with tag < s" is "youngest write older
+// than s" (rollback to a tag, tagged reads).
+//@ spec func sortedRAT(ctx *Context) bool = forall r RegisterType, i int, i2 int :: comp.validSlot(ctx.transactionRAT, r, i) && comp.validSlot(ctx.transactionRAT, r, i2) && comp.rank(ctx.transactionRAT, r, i) <= comp.rank(ctx.transactionRAT, r, i2) ==> comp.slot(ctx.transactionRAT, r, i).sequenceID >= comp.slot(ctx.transactionRAT, r, i2).sequenceID
+
 //@ func (*Context).TransactionRATWrite
 //@   mode int
 //@   reveal
+//@   conceal validSlot, rank, slotOfRank
 //@   requires wfCtxRAT(ctx)
 //@   ensures wfCtxRAT(ctx)
 //@   -- (F11 residual, fixed) a write older than the one the committed value of the register comes from is dead:
@@ -159,6 +166,10 @@ package risc
 //@   ensures forall r RegisterType :: r != exe.Register ==> comp.has(ctx.transactionRAT, r) == old(comp.has(ctx.transactionRAT, r)) && comp.newest(ctx.transactionRAT, r) == old(comp.newest(ctx.transactionRAT, r))
 //@   ensures forall r RegisterType :: comp.has(ctx.committedRAT, r) == old(comp.has(ctx.committedRAT, r)) && comp.newest(ctx.committedRAT, r) == old(comp.newest(ctx.committedRAT, r))
 //@   assigns ctx.transactionRAT.idx[*], ctx.transactionRAT.values[*], ctx.transactionRAT.wrapped[*], all []transactionUnit
+//@   -- the table stays in tag order when the write is dead (return 0) or arrives in order (return 1); for an
+//@   -- out-of-order arrival (the Rewrite path) this is left to the bounded exploration rat-orders
+//@   return 0: old(sortedRAT(ctx)) ==> sortedRAT(ctx)
+//@   return 1: old(sortedRAT(ctx)) ==> sortedRAT(ctx)
 //@   loop 0: invariant 0 <= younger && younger <= len(recent) && (forall a :: 0 <= a && a < younger ==> at(recent, lo(recent) + a).sequenceID > sequenceID)
 
 // RATCommit: every register with uncommitted writes takes the value of its
@@ -173,6 +184,8 @@ package risc
 //@   ensures forall r RegisterType :: old(comp.has(ctx.transactionRAT, r)) ==> comp.has(ctx.committedRAT, r) && comp.newest(ctx.committedRAT, r) == old(comp.newest(ctx.transactionRAT, r).value)
 //@   ensures forall r RegisterType :: !old(comp.has(ctx.transactionRAT, r)) ==> comp.has(ctx.committedRAT, r) == old(comp.has(ctx.committedRAT, r)) && comp.newest(ctx.committedRAT, r) == old(comp.newest(ctx.committedRAT, r))
 //@   ensures forall r RegisterType :: !comp.has(ctx.transactionRAT, r)
+//@   -- the emptied table is trivially in tag order (base case of the sortedRAT induction)
+//@   ensures sortedRAT(ctx)
 //@   -- (F11 residual, fixed) the tag of the committed write is recorded: an older write of the register that completes later is dropped
 //@   ensures forall r RegisterType :: old(comp.has(ctx.transactionRAT, r)) ==> r in ctx.committedSequenceID && ctx.committedSequenceID[r] == old(comp.newest(ctx.transactionRAT, r).sequenceID)
 //@   ensures forall r RegisterType :: !old(comp.has(ctx.transactionRAT, r)) ==> (r in ctx.committedSequenceID) == old(r in ctx.committedSequenceID) && ctx.committedSequenceID[r] == old(ctx.committedSequenceID[r])
@@ -191,12 +204,22 @@ package risc
 //@   ensures wfCtxRAT(ctx)
 //@   ensures forall r RegisterType, i int :: old(comp.validSlot(ctx.transactionRAT, r, i)) && old(comp.slot(ctx.transactionRAT, r, i).sequenceID) < sequenceID && (forall i2 int :: old(comp.validSlot(ctx.transactionRAT, r, i2)) && old(comp.slot(ctx.transactionRAT, r, i2).sequenceID) < sequenceID ==> old(comp.rank(ctx.transactionRAT, r, i)) <= old(comp.rank(ctx.transactionRAT, r, i2))) ==> comp.has(ctx.committedRAT, r) && comp.newest(ctx.committedRAT, r) == old(comp.slot(ctx.transactionRAT, r, i).value)
 //@   ensures forall r RegisterType :: !(exists i int :: old(comp.validSlot(ctx.transactionRAT, r, i)) && old(comp.slot(ctx.transactionRAT, r, i).sequenceID) < sequenceID) ==> comp.has(ctx.committedRAT, r) == old(comp.has(ctx.committedRAT, r)) && comp.newest(ctx.committedRAT, r) == old(comp.newest(ctx.committedRAT, r))
+//@   -- (F11 residual) the tag of the write a register is rolled back to is recorded; the other registers keep theirs
+//@   ensures forall r RegisterType, i int :: old(comp.validSlot(ctx.transactionRAT, r, i)) && old(comp.slot(ctx.transactionRAT, r, i).sequenceID) < sequenceID && (forall i2 int :: old(comp.validSlot(ctx.transactionRAT, r, i2)) && old(comp.slot(ctx.transactionRAT, r, i2).sequenceID) < sequenceID ==> old(comp.rank(ctx.transactionRAT, r, i)) <= old(comp.rank(ctx.transactionRAT, r, i2))) ==> r in ctx.committedSequenceID && ctx.committedSequenceID[r] == old(comp.slot(ctx.transactionRAT, r, i).sequenceID)
+//@   ensures forall r RegisterType :: !(exists i int :: old(comp.validSlot(ctx.transactionRAT, r, i)) && old(comp.slot(ctx.transactionRAT, r, i).sequenceID) < sequenceID) ==> (r in ctx.committedSequenceID) == old(r in ctx.committedSequenceID) && ctx.committedSequenceID[r] == old(ctx.committedSequenceID[r])
 //@   ensures forall r RegisterType :: !comp.has(ctx.transactionRAT, r)
+//@   -- in a table in tag order the write a register is rolled back to (the most recent one older than s) is
+//@   -- the YOUNGEST BY TAG among those older than s
+//@   ensures old(sortedRAT(ctx)) ==> (forall r RegisterType, i int, i3 int :: old(comp.validSlot(ctx.transactionRAT, r, i)) && old(comp.slot(ctx.transactionRAT, r, i).sequenceID) < sequenceID && (forall i2 int :: old(comp.validSlot(ctx.transactionRAT, r, i2)) && old(comp.slot(ctx.transactionRAT, r, i2).sequenceID) < sequenceID ==> old(comp.rank(ctx.transactionRAT, r, i)) <= old(comp.rank(ctx.transactionRAT, r, i2))) && old(comp.validSlot(ctx.transactionRAT, r, i3)) && old(comp.slot(ctx.transactionRAT, r, i3).sequenceID) < sequenceID ==> old(comp.slot(ctx.transactionRAT, r, i).sequenceID) >= old(comp.slot(ctx.transactionRAT, r, i3).sequenceID))
+//@   -- the emptied table is trivially in tag order (base case of the sortedRAT induction)
+//@   ensures sortedRAT(ctx)
 //@   assigns ctx.transactionRAT, ctx.committedRAT.idx[*], ctx.committedRAT.values[*], ctx.committedRAT.wrapped[*], ctx.committedSequenceID[*], all []int32
 //@   loop 0: invariant comp.wfRAT(ctx.committedRAT) && ctx.transactionRAT == old(ctx.transactionRAT) && ctx.committedRAT == old(ctx.committedRAT) && ctx.committedSequenceID == old(ctx.committedSequenceID)
 //@   loop 0: invariant forall r RegisterType, i int :: visited(r) && old(comp.validSlot(ctx.transactionRAT, r, i)) && old(comp.slot(ctx.transactionRAT, r, i).sequenceID) < sequenceID && (forall i2 int :: old(comp.validSlot(ctx.transactionRAT, r, i2)) && old(comp.slot(ctx.transactionRAT, r, i2).sequenceID) < sequenceID ==> old(comp.rank(ctx.transactionRAT, r, i)) <= old(comp.rank(ctx.transactionRAT, r, i2))) ==> comp.has(ctx.committedRAT, r) && comp.newest(ctx.committedRAT, r) == old(comp.slot(ctx.transactionRAT, r, i).value)
 //@   loop 0: invariant forall r RegisterType :: visited(r) ==> (exists i int :: old(comp.validSlot(ctx.transactionRAT, r, i)) && old(comp.slot(ctx.transactionRAT, r, i).sequenceID) < sequenceID)
 //@   loop 0: invariant forall r RegisterType :: !visited(r) ==> comp.has(ctx.committedRAT, r) == old(comp.has(ctx.committedRAT, r)) && comp.newest(ctx.committedRAT, r) == old(comp.newest(ctx.committedRAT, r))
+//@   loop 0: invariant forall r RegisterType, i int :: visited(r) && old(comp.validSlot(ctx.transactionRAT, r, i)) && old(comp.slot(ctx.transactionRAT, r, i).sequenceID) < sequenceID && (forall i2 int :: old(comp.validSlot(ctx.transactionRAT, r, i2)) && old(comp.slot(ctx.transactionRAT, r, i2).sequenceID) < sequenceID ==> old(comp.rank(ctx.transactionRAT, r, i)) <= old(comp.rank(ctx.transactionRAT, r, i2))) ==> r in ctx.committedSequenceID && ctx.committedSequenceID[r] == old(comp.slot(ctx.transactionRAT, r, i).sequenceID)
+//@   loop 0: invariant forall r RegisterType :: !visited(r) ==> (r in ctx.committedSequenceID) == old(r in ctx.committedSequenceID) && ctx.committedSequenceID[r] == old(ctx.committedSequenceID[r])
 
 //@ func (*Context).InitRAT
 //@   mode int
